@@ -325,6 +325,42 @@ func publicEntries() []entry {
 			}
 			return "ok:" + dump(v)
 		}, 0},
+		{"sonic.UnmarshalString/map[string]iface", func(p unsafe.Pointer, n int) string {
+			var v map[string]interface{}
+			err := sonic.UnmarshalString(str(p, n), &v)
+			if err != nil {
+				return errClass(err)
+			}
+			return "ok:" + dump(v)
+		}, 0},
+		{"sonic.UnmarshalString/[]iface", func(p unsafe.Pointer, n int) string {
+			var v []interface{}
+			err := sonic.UnmarshalString(str(p, n), &v)
+			if err != nil {
+				return errClass(err)
+			}
+			return "ok:" + dump(v)
+		}, 0},
+		{"sonic.UnmarshalString/RawMessage", func(p unsafe.Pointer, n int) string {
+			var v json.RawMessage
+			err := sonic.UnmarshalString(str(p, n), &v)
+			if err != nil {
+				return errClass(err)
+			}
+			return "ok:" + string(v)
+		}, 0},
+		{"sonic.UnmarshalString/struct-iface", func(p unsafe.Pointer, n int) string {
+			var v struct {
+				A interface{}   `json:"a"`
+				C []interface{} `json:"c"`
+				D interface{}   `json:"d"`
+			}
+			err := sonic.UnmarshalString(str(p, n), &v)
+			if err != nil {
+				return errClass(err)
+			}
+			return "ok:" + dump(v)
+		}, 0},
 		{"sonic.UnmarshalString/bool", func(p unsafe.Pointer, n int) string {
 			var v bool
 			err := sonic.UnmarshalString(str(p, n), &v)
@@ -458,7 +494,11 @@ var conts = [][]byte{
 	{0xff, 0xfe, 0x80, 0x80},
 	[]byte("ull alse e+5 :1}]\n"),
 	{0, 0, 0, 0, 0, 0, 0, 0},
+	[]byte(`]`), []byte(`}`), []byte(`1`), []byte(`"x"`), []byte(`null`), []byte(`,2]`), []byte(`:1}`),
 }
+
+// how many of the continuations are used (the structural ones at the end only where truncation at a token position matters)
+var nConts = 7
 
 // ------------------------------------------------------------------ report
 
@@ -530,7 +570,7 @@ func runCase(e entry, in []byte) {
 		fail(e.name, "panic", in, ref)
 	}
 	var first string
-	for k, c := range conts {
+	for k, c := range conts[:nConts] {
 		pc := placeCont(in, (k*7+len(in))%64, c)
 		rep.Placements++
 		r, f2, _ := guard(func() string { return e.run(pc, len(in)) })
@@ -722,6 +762,10 @@ func runPlace() {
 	seen := map[string]bool{}
 	runAll := func(gen string, in []byte) {
 		rep.PerGen[gen]++
+		nConts = 7
+		if gen == "blank-truncation" || gen == "prefixes" || gen == "short-exhaustive" || gen == "replay" {
+			nConts = len(conts)
+		}
 		rep.Lengths[lenClass(len(in))]++
 		if !seen[string(in)] {
 			seen[string(in)] = true
@@ -730,6 +774,10 @@ func runPlace() {
 			}
 		}
 		for _, e := range es {
+			if gen == "blank-truncation" && strings.HasPrefix(e.name, "native.") && !strings.HasSuffix(e.name, ".Value") &&
+				!strings.HasSuffix(e.name, ".SkipOne") && !strings.HasSuffix(e.name, ".ValidateOne") && !strings.HasSuffix(e.name, ".GetByPath") {
+				continue // the truncation-after-k-blanks sweep targets the value scanners and everything built on them
+			}
 			runCase(e, in)
 		}
 	}
@@ -775,6 +823,31 @@ func runPlace() {
 				continue
 			}
 			runAll("prefixes", []byte(d[:k]))
+		}
+	}
+	// 2b. every token position of a few documents, truncated there and followed by exactly k = 0..9 blanks of every kind:
+	// the scanners probe up to 4 blanks by hand before they switch to a loop / SIMD
+	btDocs := []string{`[1,{"a":[true,"x"],"b":null},2]`, `{"a":1,"c":[1,2],"d":{"k":"v"}}`, `[[1],[2]]`, `"s"`, `12`}
+	if *tier == "quick" {
+		btDocs = []string{`[1,{"a":["x"]},2]`, `{"a":1,"d":{"k":"v"}}`, `12`}
+	}
+	for _, d := range btDocs {
+		for cut := 0; cut <= len(d); cut++ {
+			if cut > 0 && cut < len(d) && !strings.ContainsRune(`[]{},:"`, rune(d[cut-1])) && !strings.ContainsRune(`[]{},:"`, rune(d[cut])) {
+				continue // inside a scalar token
+			}
+			for k := 0; k <= 9; k++ {
+				kinds := []string{" ", "\t", "\n", "\r"}
+				if *tier == "quick" && !(k >= 3 && k <= 5) {
+					kinds = kinds[:1]
+				}
+				for _, ws := range kinds {
+					runAll("blank-truncation", []byte(d[:cut]+strings.Repeat(ws, k)))
+				}
+				if k >= 2 && (*tier != "quick" || (k >= 3 && k <= 5)) {
+					runAll("blank-truncation", []byte(d[:cut]+strings.Repeat(" \n\t\r", 3)[:k]))
+				}
+			}
 		}
 	}
 	// 3. length sweep 0..300: strings / numbers / blanks / nesting ending at every length (i.e. every alignment of the start)
